@@ -16,11 +16,12 @@ if "def" in ast.unparse(ast.parse("𝕕𝕖𝕗 = 1")):
     # Overwrite `ast.unparse` to backport https://github.com/python/cpython/pull/31012
     import copy
     import keyword
+    import math
 
     true_unparse = ast.unparse
 
     def rewriting_unparse(ast_obj):
-        ast_obj = copy.deepcopy(ast_obj)
+        ast_obj = NegativeConstants().visit(copy.deepcopy(ast_obj))
         for node in ast.walk(ast_obj):
             if type(node) is ast.Constant:
                 # Don't touch string literals.
@@ -33,6 +34,20 @@ if "def" in ast.unparse(ast.parse("𝕕𝕖𝕗 = 1")):
                     # E.g., `Global.names` or `MatchClass.kwd_attrs`.
                     setattr(node, field, [mince(x) for x in v])
         return true_unparse(ast_obj)
+
+    class NegativeConstants(ast.NodeTransformer):
+        # Python's parser never produces a negative numeric constant, and
+        # `ast.unparse` prints one without regard to precedence: the
+        # `Constant(-2)` of `(** -2 2)` would come out as `-2 ** 2`. So
+        # print it the way Python would parse it.
+        def visit_Constant(self, node):
+            v = node.value
+            if type(v) in (int, float) and math.copysign(1, v) < 0:
+                return ast.copy_location(
+                    ast.UnaryOp(ast.USub(), ast.copy_location(ast.Constant(-v), node)),
+                    node,
+                )
+            return node
 
     def mince(v):
         # We refer to this transformation as "keyword mincing" in
